@@ -6,6 +6,7 @@ import TTModel.C04_Subst
 import TTModel.C05_SiteModel
 import TTModel.C06_Heights
 import TTModel.C08_Coalescent
+import TTModel.C12_CoalModels
 /-!
 C12 driver: value and forward-mode gradient (`Dual Float`) of the density models.
 Request: `<op> <ints…> | <group> | <group> …`; floats are 16-hex-digit IEEE bit patterns, integers decimal.
@@ -247,7 +248,9 @@ def handleGroups (op : String) (args : List String) (gs : List (List String)) : 
 
 def handle (line : String) : String :=
   match splitGroups (splitWords line) with
-  | (op :: args) :: gs => (handleGroups op args gs).getD "bad-op"
+  | (op :: args) :: gs =>
+    -- extra operations (C08 exponential / linear / soft, C20 GMRF variants): TTModel/C12_CoalModels.lean
+    ((handleGroups op args gs).orElse fun _ => TT.C12.handleExtra op args gs).getD "bad-op"
   | _ => "bad-op"
 
 def main : IO Unit := mainLoop handle
